@@ -174,6 +174,22 @@ def generate(ctx):
             add("Y" + (kind if rng.random() < 0.7 else rng.choice(["N", "G", "E", "F", "F"])), v, "near")
     for _ in range(ctx.n(600, 6000)):
         add("Y" + rng.choice(["N", "G", "E"]), rng.choice(["", "%%\n", "%token a\n%%\n", "%%\nA: "]) + c12gen.random_utf8(rng, rng.randint(0, 12)), "random")
+
+    # ---- odd characters (non-ASCII digits/numerals, case-folding surprises, combining marks, odd
+    # blanks, BOM, 4-byte emoji): EVERY one of them inserted at EVERY offset and replacing EVERY
+    # character of sample texts of each parser (exhaustive over char x offset x {insert, replace})
+    for k, s in c12gen.ODD_YACC:
+        add("Y" + k, s, "valid")
+        for v in c12gen.odd_everywhere(s):
+            add("Y" + k, v, "odd")
+    for s in c12gen.ODD_LEX:
+        add("L", s, "valid")
+        for v in c12gen.odd_everywhere(s):
+            add("L", v, "odd")
+    for i, s in enumerate(c12gen.ODD_HEADERS):
+        add_h(s, "valid")
+        for v in c12gen.odd_everywhere(s):
+            add("H1" if i == 0 else "H0", v, "odd")
     return cases
 
 
@@ -402,11 +418,17 @@ def run(ctx):
     # C12 itself on the sampled inputs: with HEADER_FIXED the run must be free of witnesses; before
     # the repair the only witnesses allowed are the known classes (anything else is a VIOLATION)
     ctx.oblige(len(ctx.violations) == 0, "no unknown C12 witness among the generated texts")
-    ctx.coverage["rule"] = ("valid %grmtools sections / .l / .y texts of every kind (Gram.render() and a Grmtools-kind renderer, "
+    ctx.coverage["rule"] = ("valid %%grmtools sections / .l / .y texts of every kind (Gram.render() and a Grmtools-kind renderer, "
                             "random lexers, random sections with arrays, strings, namespaced values, numbers), every truncation of a "
                             "sample of them, char mutations, one-bracket/quote/brace unbalancing, huge integers, multi-byte chars "
-                            "injected at every offset, random UTF-8; non-trivial = non-empty text that is not pure random noise "
-                            "accepted silently; distinct by token skeleton (letters/digits/non-ASCII runs collapsed) per parser")
+                            "injected at every offset, %d odd characters (non-ASCII decimal digits of 5 scripts, superscript/fraction/Roman/"
+                            "circled/ideographic numerals, KELVIN SIGN, LONG S, dotted/dotless I, capital sharp S, fullwidth A, combining "
+                            "marks, U+2028/2029/0085/00A0/3000/200B, BOM, 4-byte emoji) each inserted at every offset and replacing every "
+                            "character of %d sample texts (yacc of 3 kinds + from_str with %%expect/%%expect-rr/%%token/%%prec/actions; lex "
+                            "with start states, quoted names, repetition counts; headers with numbers, strings, arrays), random UTF-8; non-trivial = non-empty text that is not pure random noise "
+                            "accepted silently; distinct by token skeleton (letters/digits/non-ASCII runs collapsed) per parser"
+                            % (len(c12gen.ODD_CHARS), len(c12gen.ODD_YACC) + len(c12gen.ODD_LEX) + len(c12gen.ODD_HEADERS)))
+    ctx.coverage["odd_char_cases"] = sum(1 for c in cases if c[2] == "odd")
     ctx.coverage["exhaustive"] = False
     ctx.coverage["cases_generated"] = len(cases)
     ctx.coverage["predicted_hangs_not_run_on_impl"] = skipped
